@@ -86,6 +86,24 @@ type Case struct {
 	Tree   []Node  `json:"tree"`
 	Dotu   bool    `json:"dotu"` // dialect proposed by the client (the server speaks 9P2000.u)
 	Probes []Probe `json:"probes"`
+	Races  []Race  `json:"races,omitempty"`
+}
+
+// RaceOp is one of the requests pipelined on the same fid.
+type RaceOp struct {
+	Op    string   `json:"op"`              // rename, walk, create, stat
+	Name  string   `json:"name,omitempty"`  // rename target / create name
+	Names []string `json:"names,omitempty"` // walk elements (newfid == fid)
+	Chmod bool     `json:"chmod,omitempty"` // rename: the Twstat also sets the mode ...
+	Chown bool     `json:"chown,omitempty"` // ... and (9P2000.u) the owner, both done before the rename
+	Dir   bool     `json:"dir,omitempty"`   // create: a directory
+}
+
+// Race is one round: a fid is walked to Base (plain names from the root), then
+// all Ops, every one naming that fid, are written in one chunk.
+type Race struct {
+	Base []string `json:"base"`
+	Ops  []RaceOp `json:"ops"`
 }
 
 // violation is a breach of the property (anything else returned by the
@@ -215,12 +233,17 @@ func (s *sess) rpc(m *ref9p.Msg) (*ref9p.Msg, error) {
 		}
 		return nil, s.e.childTrouble(fmt.Sprintf("%s: no reply (%v)", describe(m), err))
 	}
-	for _, f := range s.raw.Got {
+	return r, s.checkReply(m, r, s.raw.Got)
+}
+
+// checkReply applies the checks that hold for every reply.
+func (s *sess) checkReply(m, r *ref9p.Msg, frames [][]byte) error {
+	for _, f := range frames {
 		if i := bytes.Index(f, []byte(contentPrefix)); i >= 0 {
-			return r, s.viol("%s -> %s carries the content of a canary outside the root: %q", describe(m), ref9p.TypeName(r.Type), clip(string(f[i:]), 90))
+			return s.viol("%s -> %s carries the content of a canary outside the root: %q", describe(m), ref9p.TypeName(r.Type), clip(string(f[i:]), 90))
 		}
 		if i := bytes.Index(f, []byte(silentPrefix)); i >= 0 {
-			return r, s.viol("%s -> %s carries the name of an object outside the root that the client never named: %q", describe(m), ref9p.TypeName(r.Type), clip(string(f[i:]), 40))
+			return s.viol("%s -> %s carries the name of an object outside the root that the client never named: %q", describe(m), ref9p.TypeName(r.Type), clip(string(f[i:]), 40))
 		}
 	}
 	var qs []ref9p.Qid
@@ -234,10 +257,59 @@ func (s *sess) rpc(m *ref9p.Msg) (*ref9p.Msg, error) {
 	}
 	for i, q := range qs {
 		if name, out := s.outsideQid(q); out {
-			return r, s.viol("%s -> %s: qid %d has path %d, the inode of %s, which is outside the exported root %s", describe(m), ref9p.TypeName(r.Type), i, q.Path, name, rootInJail)
+			return s.viol("%s -> %s: qid %d has path %d, the inode of %s, which is outside the exported root %s", describe(m), ref9p.TypeName(r.Type), i, q.Path, name, rootInJail)
 		}
 	}
-	return r, nil
+	return nil
+}
+
+// pipeline writes the requests back to back in one chunk, without waiting for
+// any reply, then collects one reply per request (in whatever order the
+// server answers) and checks every one of them. replies[i] answers msgs[i].
+func (s *sess) pipeline(msgs []*ref9p.Msg) ([]*ref9p.Msg, error) {
+	var chunk []byte
+	byTag := map[uint16]int{}
+	for i, m := range msgs {
+		m.Tag = s.raw.NextTag()
+		byTag[m.Tag] = i
+		chunk = append(chunk, ref9p.Encode(m, s.raw.Dotu)...)
+	}
+	s.raw.Got = s.raw.Got[:0]
+	s.raw.Sent = s.raw.Sent[:0]
+	if err := s.raw.SendRaw(chunk); err != nil {
+		return nil, s.e.childTrouble(fmt.Sprintf("pipelined write: %v", err))
+	}
+	replies := make([]*ref9p.Msg, len(msgs))
+	frames := make([][]byte, len(msgs))
+	for n := 0; n < len(msgs); n++ {
+		r, raw, err := s.raw.Recv()
+		if err != nil {
+			if raw != nil {
+				return nil, infraf("pipelined requests: %v", err)
+			}
+			return nil, s.e.childTrouble(fmt.Sprintf("pipelined requests %s: reply %d of %d missing (%v)", describeAll(msgs), n+1, len(msgs), err))
+		}
+		i, known := byTag[r.Tag]
+		if !known || replies[i] != nil {
+			return nil, infraf("pipelined requests: unexpected reply tag %d", r.Tag)
+		}
+		replies[i], frames[i] = r, raw
+	}
+	// all replies are in: judge
+	for i, r := range replies {
+		if err := s.checkReply(msgs[i], r, [][]byte{frames[i]}); err != nil {
+			return replies, err
+		}
+	}
+	return replies, nil
+}
+
+func describeAll(msgs []*ref9p.Msg) string {
+	var d []string
+	for _, m := range msgs {
+		d = append(d, describe(m))
+	}
+	return "{" + strings.Join(d, " | ") + "}"
 }
 
 func ok(r *ref9p.Msg) bool { return r != nil && r.Type != ref9p.Rerror }
@@ -329,7 +401,112 @@ func RunCase(c *Case) error {
 			return nil // stays dirty: the root has to be rebuilt
 		}
 	}
-	e.dirty = false // the last probe's comparison found the outside untouched
+	for i := range c.Races {
+		s.cur, s.curVec = i, "race"
+		err := s.race(i, &c.Races[i])
+		e.restorePremise()
+		if err == nil {
+			if d := e.diffOutside(false); len(d) > 0 {
+				err = s.viol("after the pipelined requests on the fid at /%s the part of the jail outside the exported root %s differs from its snapshot:\n    %s", strings.Join(c.Races[i].Base, "/"), rootInJail, strings.Join(d, "\n    "))
+			}
+		}
+		if err != nil {
+			return s.finish(err)
+		}
+	}
+	e.dirty = false // the last comparison found the outside untouched
+	return nil
+}
+
+// race runs one round of requests pipelined on one fid. Whatever order the
+// server runs them in, the oracle is the usual one.
+func (s *sess) race(i int, rc *Race) error {
+	fid := uint32(50000 + i)
+	hx.Eval()
+	r, err := s.rpc(&ref9p.Msg{Type: ref9p.Twalk, Fid: 0, Newfid: fid, Wname: rc.Base})
+	if err != nil {
+		return err
+	}
+	if !ok(r) || len(r.Wqid) != len(rc.Base) {
+		hx.Label("race skipped: starting point gone")
+		return nil
+	}
+	isDir := len(r.Wqid) == 0 || r.Wqid[len(r.Wqid)-1].Type&qtDir != 0
+	var msgs []*ref9p.Msg
+	moves, climbing := false, false
+	for _, op := range rc.Ops {
+		switch op.Op {
+		case "rename":
+			st := rawc.NoChangeStat()
+			st.Name = op.Name
+			if op.Chmod {
+				st.Mode = 0o755
+				if isDir {
+					st.Mode |= dmDir
+				}
+			}
+			if op.Chown && s.dotu {
+				st.Nuid, st.Ngid = 0, 0
+			}
+			msgs = append(msgs, &ref9p.Msg{Type: ref9p.Twstat, Fid: fid, Stat: st})
+			if hasDotDot(op.Name) {
+				climbing = true
+			} else {
+				moves = true
+			}
+		case "walk":
+			msgs = append(msgs, &ref9p.Msg{Type: ref9p.Twalk, Fid: fid, Newfid: fid, Wname: op.Names})
+			moves = true
+		case "create":
+			perm, mode := uint32(0o644), uint8(ordwr)
+			if op.Dir {
+				perm, mode = dmDir|0o755, oread
+			}
+			msgs = append(msgs, &ref9p.Msg{Type: ref9p.Tcreate, Fid: fid, Name: op.Name, Perm: perm, Mode: mode})
+			moves = true
+		default:
+			msgs = append(msgs, &ref9p.Msg{Type: ref9p.Tstat, Fid: fid})
+		}
+	}
+	replies, err := s.pipeline(msgs)
+	if err != nil {
+		if _, isV := err.(*violation); isV {
+			return s.viol("pipelined on one fid at /%s: %s: %v", strings.Join(rc.Base, "/"), describeAll(msgs), err)
+		}
+		return err
+	}
+	renOK, movOK := false, false
+	for k, rp := range replies {
+		o := "error"
+		if ok(rp) {
+			o = "ok"
+			if rc.Ops[k].Op == "rename" && hasDotDot(rc.Ops[k].Name) {
+				renOK = true
+			} else if rc.Ops[k].Op != "stat" {
+				movOK = true
+			}
+		}
+		hx.Label("race op=" + rc.Ops[k].Op + " outcome=" + o)
+	}
+	hx.Label(fmt.Sprintf("race requests=%d climbing-rename-ok=%v other-move-ok=%v", len(rc.Ops), renOK, movOK))
+	hx.Label(fmt.Sprintf("race depth=%d", len(rc.Base)))
+	if climbing && moves {
+		var id []interface{}
+		id = append(id, "race", len(rc.Base))
+		for _, op := range rc.Ops {
+			id = append(id, op.Op, op.Name, strings.Join(op.Names, "/"))
+		}
+		hx.NonTrivial(id...)
+	}
+	// wherever the fid is now, it designates something inside the root
+	rs, err := s.rpc(&ref9p.Msg{Type: ref9p.Tstat, Fid: fid})
+	if err != nil {
+		return err
+	}
+	if ok(rs) && !s.e.findInode(rs.Stat.Qid.Path) {
+		return s.viol("after the pipelined requests %s on the fid at /%s the fid designates an object (inode %d) that is not inside the exported root", describeAll(msgs), strings.Join(rc.Base, "/"), rs.Stat.Qid.Path)
+	}
+	s.clunk(fid)
 	return nil
 }
 
